@@ -199,6 +199,20 @@ class C13(object):
             if not (gap >= -1e-7):
                 r.mismatch = 'model: dual lower bound %r exceeds the achieved R + beta D = %r' % (lb, rate + beta * dval)
             elif gap > 2e-2:
+                # The dual bound evaluated at the returned joint is only tight when that joint is optimal; before
+                # calling the result sub-optimal, evaluate the same (always valid) bound at a long-run iterate.
+                qy = np.ones(n) / n
+                pa = np.array(p, dtype=float)
+                for _ in range(3000):
+                    A = qy * np.exp2(-beta * d)
+                    A /= A.sum(axis=1, keepdims=True)
+                    qy = np.maximum(pa @ A, 1e-300)
+                lb2 = bits2f(drv.call('chanf', ['rdbound', fv([beta]), fm(pa[:, None] * A), fm(d)]))
+                r.detail['lower_bound_at_long_run_iterate'] = lb2
+                gap = rate + beta * dval - max(lb, lb2)
+                r.detail['gap'] = gap
+            if gap > 2e-2 and not r.mismatch:
+                lb = max(lb, r.detail.get('lower_bound_at_long_run_iterate', lb))
                 r.oracle_fail = ('R + beta D = %r but some test channel achieves at most %r + tolerance: the returned '
                                  'joint is not optimal (gap %r)' % (rate + beta * dval, lb, gap))
         return rate, dval
